@@ -89,6 +89,38 @@ def gen_scenario(rng):
     return ops
 
 
+def gen_kindswitch(rng):
+    """One channel name used by subscriptions of one kind, everyone leaves, deferred work drains (settle),
+    then used by the other kind, and so on (map -> empty -> stream -> empty and the reverse)."""
+    ops = ["reset"]
+    ch = rng.choice(["x1", "x2", "s1", "m1"])
+    kind = rng.choice("sm")
+    gen = 0
+    for _ in range(rng.choice([2, 2, 3, 4])):
+        clients = rng.sample([1, 2, 3, 4], rng.choice([1, 1, 2, 3]))
+        live = {}
+        for c in clients:
+            gen += 1
+            res = "fail" if rng.random() < 0.1 else "ok"
+            ops.append(f"add {c} {ch} {gen} {kind} {res}")
+            if res == "ok" or live:
+                live[c] = gen
+            if rng.random() < 0.3:
+                ops.append(f"tick {rng.choice([100, 600, 1100])}")
+        if rng.random() < 0.3:
+            ops.append(f"setunsub {ch} fail")
+        for c in list(live):
+            ops.append(f"rm {c} {ch} {live[c] if rng.random() < 0.9 else 0}")
+            if rng.random() < 0.3:
+                ops.append(f"tick {rng.choice([100, 400, 1000, 1500])}")
+        if rng.random() < 0.2:
+            ops.append(f"rm {rng.randint(1, 5)} {ch} 0")     # absent client: the "empty" quirk job
+        ops.append("settle")
+        if rng.random() < 0.8:
+            kind = "m" if kind == "s" else "s"
+    return ops
+
+
 def parse_line(line):
     ws = line.split()
     r = ws[0][2:]
@@ -102,13 +134,29 @@ def parse_line(line):
 
 
 def oracle(ops, out):
-    """Property statement on the real trace of one scenario.  None = holds."""
+    """Property statement on the real trace of one scenario.  None = holds.
+
+    The broker that serves a channel is the one of the kind its current subscribers were added with.
+    The kind of a channel may change only at a settled point: no subscriber, and a `settle` since the
+    last call that touched the channel (deferred work drained).  A script that mixes kinds otherwise is
+    judged only up to that point (it is still compared with the model)."""
+    cur_kind, clean, prev = {}, {}, {}
     for op, line in zip(ops, out):
         if line.startswith("PANIC") or line == "<missing>":
             return "panic or crash of the implementation"
         if not line.startswith("r="):
             continue
         r, evs, st = parse_line(line)
+        w = op.split()
+        if w[0] in ("add", "qadd", "rm", "qrm"):
+            ch = w[2]
+            if w[0] in ("add", "qadd"):
+                k = w[4]
+                if ch not in cur_kind or (clean.get(ch, True) and prev.get(ch, {"cnt": 0})["cnt"] == 0):
+                    cur_kind[ch] = k
+                elif cur_kind[ch] != k:
+                    return None   # kinds mixed at a non-settled point: outside the statement's domain
+            clean[ch] = False
         for e in evs:
             p = e.split(":")
             if p[0] == "U":
@@ -118,20 +166,26 @@ def oracle(ops, out):
                 if int(p[4]) < 1 or int(p[5]) < 1:
                     return "broker Subscribe ran for a channel without the subscriber registered in the hub"
         for ch, v in st.items():
-            servedk = v["m"] if kind_of(ch) == "m" else v["s"]
-            if v["cnt"] > 0 and not servedk and not v["lock"]:
+            k = cur_kind.get(ch)
+            servedk = v["m"] if k == "m" else v["s"]
+            if v["cnt"] > 0 and k is not None and not servedk and not v["lock"]:
                 return "local subscribers but not subscribed in the serving broker (no call in flight)"
         if op.strip() == "settle" and r == "-":
             for ch, v in st.items():
-                servedk = v["m"] if kind_of(ch) == "m" else v["s"]
-                other = v["s"] if kind_of(ch) == "m" else v["m"]
+                k = cur_kind.get(ch)
                 if v["lock"]:
                     return "settled but a sub lock is still held"
-                if servedk != (v["cnt"] > 0):
-                    return ("settled: broker subscription without local subscribers" if servedk
-                            else "settled: local subscribers without broker subscription")
-                if other:
-                    return "settled: subscribed in the broker that does not serve the channel"
+                for b in ("s", "m"):
+                    want = v["cnt"] > 0 and k == b
+                    if v[b] and not want:
+                        return ("settled: subscribed in the %s broker without local subscribers of that kind"
+                                % ("map" if b == "m" else "stream"))
+                    if want and not v[b]:
+                        return "settled: local subscribers without subscription in the serving broker"
+                if v["cnt"] == 0:
+                    clean[ch] = True
+        if st:
+            prev = st
     return None
 
 
@@ -179,11 +233,15 @@ def run(ctx):
                 "outcome, Unsubscribe outcome modes ok / failing (cool-down, retries) / gated, virtual ticks around the "
                 "1 s job delay and 500 ms cool-down, settle; race blocks 'gated Unsubscribe + arriving subscriber'; "
                 "non-trivial = scenario with a broker failure, a gate or a job that found subscribers; distinct = "
-                "distinct op list")
+                "distinct op list; plus kind-switch scripts: one channel name used by map subscriptions, emptied, settled, then "
+                "by stream subscriptions (and the reverse), with failing subscribes/unsubscribes and absent-client removes")
     ctx.assumptions = [
         "a failed broker Subscribe/Unsubscribe leaves the broker-side subscription unchanged; both are idempotent",
-        "the kind (stream/map) of a channel is a function of the channel (theorems: hypothesis WF; the harness also "
-        "runs mixed-kind adds, which are compared with the model but excluded from the oracle's settle check)",
+        "the kind (stream/map) of a channel changes only at settled points (no subscriber, deferred work drained): "
+        "theorems hold for a fixed kind (hypothesis WF) and settled_empty_eq_init restarts them with the other kind; "
+        "scripts 'map -> empty -> settle -> stream -> empty' and the reverse are generated and judged per broker; a "
+        "script that switches kind while a job is still pending (the old broker then stays subscribed: the job finds "
+        "subscribers and gives up) is compared with the model but not judged by the oracle",
         "the dissolver keeps every submitted job until it returns nil (C40) and the node is not shut down",
         "each subLock critical section is atomic with respect to other holders of the same lock (sync.Mutex); hub "
         "mutations happen only in addSubscription/removeSubscription (checked: grep of hub.addSub/removeSub callers)",
@@ -202,6 +260,8 @@ def run(ctx):
         ops = [l.rstrip("\n") for l in open("props/C26/corpus.ops") if l.strip() and not l.startswith("#")]
         for _ in range(ctx.scale(500, 8000)):
             ops += gen_scenario(ctx.rng)
+        for _ in range(ctx.scale(150, 2500)):
+            ops += gen_kindswitch(ctx.rng)
     total = len(split_scenarios(ops))
     ops, ncut = prefilter(ctx, ops)
     if ops is None:
@@ -235,7 +295,7 @@ def run(ctx):
             # cut short by the watchdog: judge what was observed, compare nothing
             dropped += 1
             part = impl[a:b]
-            msg = oracle(g_ops[:len(part)], part) if part and uses_only_own_kind(g_ops) else None
+            msg = oracle(g_ops[:len(part)], part) if part else None
             if msg:
                 nviol += 1
                 ctx.violation("property", msg, signature={"oracle": msg[:70]},
@@ -256,7 +316,7 @@ def run(ctx):
                     p = e.split(":")
                     if p[0] in "SU":
                         ctx.count(f"broker:{p[0]}:{p[2]}:{p[3]}")
-        msg = oracle(g_ops, g_impl) if uses_only_own_kind(g_ops) else None
+        msg = oracle(g_ops, g_impl)
         if msg:
             nviol += 1
             if nviol <= 3:
